@@ -33,6 +33,35 @@ DN = '''	splitByPackage := strings.Split(name, ".")
 	return name
 '''
 IDR = '''	return fmt.Sprintf("%s.%s%s", path, receiver, f.Name)'''
+
+SE = """		parts := strings.SplitN(s, "=", 2)
+		if len(parts) != 2 {
+			return nil, fmt.Errorf("badly formatted environment variable: %v", s)
+		}
+		out[parts[0]] = parts[1]
+"""
+JE = """	for k, v := range env {
+		vals = append(vals, k+"="+v)
+	}
+"""
+GO = """	if goos == "" {
+		env["GOOS"] = runtime.GOOS
+	} else {
+		env["GOOS"] = goos
+	}
+"""
+CD = """		low := strings.ToLower(f.Name)
+		if f.Receiver != "" {
+			low = strings.ToLower(f.Receiver) + ":" + low
+		}
+		if lowers[low] {
+			hasDupes = true
+		}
+		lowers[low] = true
+		names[low] = append(names[low], f.Name)
+"""
+OL = """	return strings.TrimSpace(strings.Replace(s, "\\n", " ", -1))"""
+ENVI = ["EnvWithGOOS", "EnvWithGOOS/Constraints"]
 # (id, kind S=semantic H=harmless, item names, file, old, new, expected coverage value prefix)
 MUTANTS = [
     ("joinArgs-S1 b before a", "S", ["joinArgs"], "sh/cmd.go", JA, "\tout := make([]string, 0, len(a)+len(b))\n\tout = append(out, b...)\n\treturn append(out, a...)\n", "differs"),
@@ -52,7 +81,6 @@ MUTANTS = [
     ("Functions.Less-S1 >", "S", ["Functions.Less"], "parse/parse.go", "return s[i].TargetName() < s[j].TargetName()", "return s[i].TargetName() > s[j].TargetName()", "differs"),
     ("Functions.Less-S2 <=", "S", ["Functions.Less"], "parse/parse.go", "return s[i].TargetName() < s[j].TargetName()", "return s[i].TargetName() <= s[j].TargetName()", "differs"),
     ("Functions.Less-S3 by Name only", "S", ["Functions.Less"], "parse/parse.go", "return s[i].TargetName() < s[j].TargetName()", "return s[i].Name < s[j].Name", "differs"),
-    ("Functions.Less-H1 locals, flipped", "H", ["Functions.Less"], "parse/parse.go", "return s[i].TargetName() < s[j].TargetName()", "x, y := s[i], s[j]\n\treturn y.TargetName() > x.TargetName()", "untranslatable"),
     ("Functions.Less-H2 locals", "H", ["Functions.Less"], "parse/parse.go", "return s[i].TargetName() < s[j].TargetName()", "x := s[i].TargetName()\n\ty := s[j].TargetName()\n\treturn y > x", "proved"),
     ("Imports.Less-S1 by Name", "S", ["Imports.Less"], "parse/parse.go", "return s[i].UniqueName < s[j].UniqueName", "return s[i].Name < s[j].Name", "differs"),
     ("Imports.Less-S2 swapped indices", "S", ["Imports.Less"], "parse/parse.go", "return s[i].UniqueName < s[j].UniqueName", "return s[j].UniqueName < s[i].UniqueName", "differs"),
@@ -69,6 +97,32 @@ MUTANTS = [
     ("displayName-S3 returns the first piece", "S", ["displayName"], "mg/deps.go", DN, DN.replace("splitByPackage[len(splitByPackage)-1]", "splitByPackage[0]"), "differs"),
     ("displayName-H1 early return, parts[1]", "H", ["displayName"], "mg/deps.go", DN, "\tparts := strings.Split(name, \".\")\n\tif len(parts) != 2 || parts[0] != \"main\" {\n\t\treturn name\n\t}\n\treturn parts[1]\n", "proved"),
     ("displayName-H2 TrimPrefix/Contains (outside the subset)", "H", ["displayName"], "mg/deps.go", DN, "\tif rest := strings.TrimPrefix(name, \"main.\"); rest != name && !strings.Contains(rest, \".\") {\n\t\treturn rest\n\t}\n\treturn name\n", "untranslatable"),
+    # ---- maps, several results, environment
+    ("SplitEnv-S1 SplitN(s, \"=\", -1)", "S", ["SplitEnv"], "internal/run.go", SE, SE.replace('"=", 2)', '"=", -1)'), "differs"),
+    ("SplitEnv-S2 Split instead of SplitN", "S", ["SplitEnv"], "internal/run.go", SE, SE.replace('strings.SplitN(s, "=", 2)', 'strings.Split(s, "=")'), "differs"),
+    ("SplitEnv-S3 name and value swapped", "S", ["SplitEnv"], "internal/run.go", SE, SE.replace("out[parts[0]] = parts[1]", "out[parts[1]] = parts[0]"), "differs"),
+    ("SplitEnv-S4 first entry of a name wins", "S", ["SplitEnv"], "internal/run.go", SE, SE.replace("\t\tout[parts[0]] = parts[1]\n", "\t\tif _, seen := out[parts[0]]; !seen {\n\t\t\tout[parts[0]] = parts[1]\n\t\t}\n"), "differs"),
+    ("SplitEnv-S5 entries without = are skipped silently", "S", ["SplitEnv"], "internal/run.go", SE, SE.replace('\t\t\treturn nil, fmt.Errorf("badly formatted environment variable: %v", s)\n', "\t\t\tcontinue\n"), "differs"),
+    ("SplitEnv-H1 len(parts) < 2, other message", "H", ["SplitEnv"], "internal/run.go", SE, SE.replace("!= 2", "< 2").replace("badly formatted environment variable: %v", "bad entry %s in the environment"), "proved"),
+    ("SplitEnv-H2 continue form, errors.New", "H", ["SplitEnv", "EnvWithGOOS"], "internal/run.go", SE, "\t\tkv := strings.SplitN(s, \"=\", 2)\n\t\tif len(kv) == 2 {\n\t\t\tout[kv[0]] = kv[1]\n\t\t\tcontinue\n\t\t}\n\t\treturn nil, errors.New(\"malformed entry \" + s)\n", "proved", [('\t"bytes"\n', '\t"bytes"\n\t"errors"\n')]),
+    ("SplitEnv-H3 strings.Cut (outside the subset)", "H", ["SplitEnv"], "internal/run.go", SE, "\t\tname, value, found := strings.Cut(s, \"=\")\n\t\tif !found {\n\t\t\treturn nil, fmt.Errorf(\"badly formatted environment variable: %v\", s)\n\t\t}\n\t\tout[name] = value\n", "untranslatable"),
+    ("joinEnv-S1 value=name", "S", ["SplitEnv"], "internal/run.go", JE, JE.replace('k+"="+v', 'v+"="+k'), "differs"),
+    ("joinEnv-S2 empty values dropped", "S", ["SplitEnv", "EnvWithGOOS"], "internal/run.go", JE, JE.replace("\t\tvals = append", "\t\tif v == \"\" {\n\t\t\tcontinue\n\t\t}\n\t\tvals = append"), "differs"),
+    ("joinEnv-H1 Sprintf", "H", ["SplitEnv", "EnvWithGOOS"], "internal/run.go", JE, JE.replace('k+"="+v', 'fmt.Sprintf("%s=%s", k, v)'), "proved"),
+    ("joinEnv-H2 iterates in sorted key order (sort.Strings: outside the subset)", "H", ["SplitEnv"], "internal/run.go", JE, "\tkeys := make([]string, 0, len(env))\n\tfor k := range env {\n\t\tkeys = append(keys, k)\n\t}\n\tsort.Strings(keys)\n\tfor _, k := range keys {\n\t\tvals = append(vals, k+\"=\"+env[k])\n\t}\n", "untranslatable", [('\t"runtime"\n', '\t"runtime"\n\t"sort"\n')]),
+    ("EnvWithGOOS-S1 GOOS argument ignored", "S", ENVI, "internal/run.go", GO, GO.replace('env["GOOS"] = goos', 'env["GOOS"] = runtime.GOOS'), "differs"),
+    ("EnvWithGOOS-S2 GOOS left to the caller's environment when no argument", "S", ENVI, "internal/run.go", GO, "\tif goos != \"\" {\n\t\tenv[\"GOOS\"] = goos\n\t}\n", "differs"),
+    ("EnvWithGOOS-S3 EnvWithCurrentGOOS forgets GOARCH", "S", ENVI, "internal/run.go", "\tvals[\"GOARCH\"] = runtime.GOARCH\n", "", "differs"),
+    ("EnvWithGOOS-H1 local variable for the value", "H", ENVI, "internal/run.go", GO, "\tplatform := goos\n\tif platform == \"\" {\n\t\tplatform = runtime.GOOS\n\t}\n\tenv[\"GOOS\"] = platform\n", "proved"),
+    ("checkDupeTargets-S1 receiver not lower-cased", "S", ["checkDupeTargets"], "parse/parse.go", CD, CD.replace("strings.ToLower(f.Receiver)", "f.Receiver"), "differs"),
+    ("checkDupeTargets-S2 receiver not part of the key", "S", ["checkDupeTargets"], "parse/parse.go", CD, CD.replace("\t\tif f.Receiver != \"\" {\n\t\t\tlow = strings.ToLower(f.Receiver) + \":\" + low\n\t\t}\n", ""), "differs"),
+    ("checkDupeTargets-S3 hasDupes reset by a later unique name", "S", ["checkDupeTargets"], "parse/parse.go", CD, CD.replace("\t\tif lowers[low] {\n\t\t\thasDupes = true\n\t\t}\n", "\t\thasDupes = lowers[low]\n"), "differs"),
+    ("checkDupeTargets-H1 renamed locals, else branch", "H", ["checkDupeTargets"], "parse/parse.go", CD, "\t\tkey := \"\"\n\t\tif f.Receiver == \"\" {\n\t\t\tkey = strings.ToLower(f.Name)\n\t\t} else {\n\t\t\tkey = strings.ToLower(f.Receiver) + \":\" + strings.ToLower(f.Name)\n\t\t}\n\t\tif lowers[key] {\n\t\t\thasDupes = true\n\t\t}\n\t\tlowers[key] = true\n\t\tnames[key] = append(names[key], f.Name)\n", "proved"),
+    ("checkDupeTargets-H2 dupes read off len(names[low]) (equivalent; outside what the script proves)", "H", ["checkDupeTargets"], "parse/parse.go", CD, CD.replace("\t\tif lowers[low] {\n\t\t\thasDupes = true\n\t\t}\n", "\t\tif len(names[low]) > 0 {\n\t\t\thasDupes = true\n\t\t}\n"), "unproved-no-diff"),
+    ("toOneLine-S1 no TrimSpace", "S", ["toOneLine"], "parse/parse.go", OL, '\treturn strings.Replace(s, "\\n", " ", -1)', "differs"),
+    ("toOneLine-S2 newlines removed, not replaced", "S", ["toOneLine"], "parse/parse.go", OL, '\treturn strings.TrimSpace(strings.Replace(s, "\\n", "", -1))', "differs"),
+    ("toOneLine-H1 ReplaceAll, local", "H", ["toOneLine"], "parse/parse.go", OL, '\tflat := strings.ReplaceAll(s, "\\n", " ")\n\treturn strings.TrimSpace(flat)', "proved"),
+    ("Functions.Less-H1 locals, flipped", "H", ["Functions.Less"], "parse/parse.go", "return s[i].TargetName() < s[j].TargetName()", "x, y := s[i], s[j]\n\treturn y.TargetName() > x.TargetName()", "proved"),
 ]
 
 
@@ -83,13 +137,19 @@ def main():
     import vlib, extractlib
     rows = []
     try:
-        for mid, kind, items, rel, old, new, expect in MUTANTS:
+        for row in MUTANTS:
+            mid, kind, items, rel, old, new, expect = row[:7]
+            more = row[7] if len(row) > 7 else []      # further (old, new) replacements in the same file (imports)
             if sel and not any(s in mid for s in sel):
                 continue
             path = os.path.join(SCRATCH, rel)
             orig = open(path).read()
             assert orig.count(old) == 1, (mid, orig.count(old))
-            open(path, "w").write(orig.replace(old, new))
+            text = orig.replace(old, new)
+            for o2, n2 in more:
+                assert text.count(o2) == 1, (mid, o2)
+                text = text.replace(o2, n2)
+            open(path, "w").write(text)
             try:
                 rc = subprocess.run(["go", "build", "./..."], cwd=SCRATCH, env=vlib.goenv(), stdout=subprocess.PIPE, stderr=subprocess.STDOUT)
                 assert rc.returncode == 0, (mid, rc.stdout.decode()[-800:])
